@@ -231,9 +231,20 @@ func (p *GleecePipeline) Validate() ([]diagnostics.EntityDiagnostic, error) {
 
 func (p *GleecePipeline) getControllers() []metadata.ControllerMeta {
 	controllerNodes := p.symGraph.FindByKind(common.SymKindController)
-	return linq.Map(controllerNodes, func(node *symboldg.SymbolNode) metadata.ControllerMeta {
+	controllers := linq.Map(controllerNodes, func(node *symboldg.SymbolNode) metadata.ControllerMeta {
 		return node.Data.(metadata.ControllerMeta)
 	})
+
+	// The graph hands nodes out in map order; validation and reduction (which assigns import serials
+	// on first use) must not depend on it
+	slices.SortFunc(controllers, func(a, b metadata.ControllerMeta) int {
+		if byPkg := strings.Compare(a.Struct.PkgPath, b.Struct.PkgPath); byPkg != 0 {
+			return byPkg
+		}
+		return strings.Compare(a.Struct.Name, b.Struct.Name)
+	})
+
+	return controllers
 }
 
 func (p *GleecePipeline) reduceControllers(controllers []metadata.ControllerMeta) ([]definitions.ControllerMetadata, error) {
